@@ -145,6 +145,30 @@ func runConc9(e *exec) {
 	for _, a := range c.actors {
 		probes[a.id] = map[string]int{}
 	}
+	// a reactive DHCP client lives in the wire monitor: it takes every OFFER it sees, so that
+	// leases are really acknowledged (the handler then updates the session from the packet loop)
+	monProbes := map[string]int{}
+	c.react = func(c *conc, out world.Out) {
+		d := out.F.DHCP
+		if d == nil || d.Op != 2 || d.MsgType != 2 || !d.YIAddr.IsValid() || isClosing() {
+			return
+		}
+		y := d.YIAddr.As4()
+		opts := []fb.DHCPOpt{{Code: 53, Data: []byte{3}}, {Code: 50, Data: y[:]}}
+		if sid, ok := d.Opt(54); ok {
+			opts = append(opts, fb.DHCPOpt{Code: 54, Data: sid})
+		}
+		req := fb.DHCP{Op: 1, XID: d.XID, CHAddr: fb.MAC(d.CHAddr), Options: opts}
+		seq := simrt.Seq()
+		frame := fb.Eth(fb.Broadcast, fb.MAC(d.CHAddr), 0x0800, fb.IPv4(netip.MustParseAddr("0.0.0.0"), netip.MustParseAddr("255.255.255.255"), 17, 64, 1, fb.UDP(68, 67, req.Bytes())))
+		delay := 20 * time.Millisecond
+		if d.XID[2]%2 == 0 {
+			delay = 0 // at once: the ACK is processed at the very instant of the DISCOVER (e.g. a purge tick)
+		}
+		simrt.NetInject(int64(delay), frame)
+		c.monIn = append(c.monIn, inRec{Seq: seq, T: now() + delay, Tag: "select", OpIdx: -1})
+		monProbes["dhcp_offer_taken"]++
+	}
 	var closeRec callRec
 	body := func(a *actor, i int, o Op) {
 		pr := probes[a.id]
@@ -238,7 +262,7 @@ func runConc9(e *exec) {
 				case aReleaseClient:
 					return 0, w.S.Release(world.HW(clientMAC(o.M)))
 				case aCheckTables:
-					apiUserCheckTables(e, "quiescent point (concurrent run)")
+					apiUserCheckTables(e, "C09.tables", "quiescent point (concurrent run)") // C09: "the table invariants of C05 hold at every quiescent point"
 				// (Session.DHCPv4Update is not offered here: the statement's API list does not include it;
 				// it is the DHCP handler's call, made from the packet loop)
 				}
@@ -387,6 +411,8 @@ func runConc9(e *exec) {
 	mu.Lock()
 	defer mu.Unlock()
 	e.lock, e.unlock = nil, nil
+	// everything has stopped: the final quiescent point
+	apiUserCheckTables(e, "C09.tables", "the end of the concurrent run (everything closed)")
 
 	for _, l := range splitLines(simrt.TaskInfo()) {
 		var id, kind, site, last int
@@ -477,6 +503,9 @@ func runConc9(e *exec) {
 		for k, v := range p {
 			e.res.Probes[k] += v
 		}
+	}
+	for k, v := range monProbes {
+		e.res.Probes[k] += v
 	}
 	_ = closeRec
 	e.res.FramesOut += len(c.out)
